@@ -156,7 +156,9 @@ def run(ctx):
     else:
         PURE = ("::ne", "::eq", "changed_comment_content", "error_on_unformatted", "::snippet", "to_owned")
         paths = explore(f, pure=lambda c: any(c.name.endswith(x) for x in PURE) or c.declared in ("std::cmp::PartialEq::ne", "std::cmp::PartialEq::eq"),
-                        is_effect=lambda c: c.name.endswith("FormatReport::append") or c.name.endswith("FormattingError::from_span"))
+                        is_effect=lambda c: c.name.endswith("FormatReport::append") or c.name.endswith("FormattingError::from_span"),
+                        program=p, inline=lambda c: (lambda h: h is not None and h.crate == "rustfmt_nightly" and h.id.startswith("rustfmt_nightly::comment::")
+                                                     and any(cc.name.endswith("FormatReport::append") for cc in h.calls()))(p.fns.get(c.resolved or "")))
         r.paths(B, len(paths))
         n = 0
         for path in paths:
